@@ -567,17 +567,17 @@ theorem C09_matured_withdraw_tx_succeeds (s : Sys) (u : Addr) (inv : FullQ s [])
     accepted by the staking module; they change nothing but delegations and the unbonding queue -/
 theorem run_undelegates : ∀ (vs : List (Addr × Nat)) (ps : List Nat) (s : Sys) (rest : List Msg),
     (vs.map (·.1)).Nodup → (∀ x ∈ vs, s.chain.deleg x.1 = x.2) →
-    (∀ j, nth ps j ≤ nth (vs.map (·.2)) j) →
+    (∀ j, nth ps j ≤ nth (vs.map (·.2)) j) → (∀ v, s.chain.noUndelegate v = false) →
     ∃ k s', k ≤ vs.length ∧ SameContracts s s' ∧ s'.chain.time = s.chain.time ∧ s'.chain.height = s.chain.height ∧
       s'.chain.bank = s.chain.bank ∧
       ∀ n, Sys.run (n + k) s (zipMsgs (fun v p => Msg.undelegate hubA v p) vs ps ++ rest) = Sys.run n s' rest := by
   intro vs
   induction vs with
   | nil =>
-    intro ps s rest _ _ _
+    intro ps s rest _ _ _ _
     exact ⟨0, s, Nat.le_refl _, SameContracts.refl s, rfl, rfl, rfl, fun n => by simp [zipMsgs]⟩
   | cons x vs ih =>
-    intro ps s rest hnd hd hle
+    intro ps s rest hnd hd hle hnu
     obtain ⟨v, d⟩ := x
     cases ps with
     | nil => exact ⟨0, s, Nat.zero_le _, SameContracts.refl s, rfl, rfl, rfl, fun n => by simp [zipMsgs]⟩
@@ -592,7 +592,7 @@ theorem run_undelegates : ∀ (vs : List (Addr × Nat)) (ps : List Nat) (s : Sys
       by_cases hp0 : p = 0
       · -- nothing asked of this validator: no message
         obtain ⟨k, s', hk, sc, ht, hh, hb, hrun⟩ := ih ps s rest hnd'.2
-          (fun y hy => hd y (List.mem_cons_of_mem _ hy)) hle'
+          (fun y hy => hd y (List.mem_cons_of_mem _ hy)) hle' hnu
         refine ⟨k, s', by simp; omega, sc, ht, hh, hb, fun n => ?_⟩
         simp only [zipMsgs, hp0, if_true, List.nil_append]
         exact hrun n
@@ -602,14 +602,14 @@ theorem run_undelegates : ∀ (vs : List (Addr × Nat)) (ps : List Nat) (s : Sys
             unbondingQ := s.chain.unbondingQ ++ [(v, p, s.chain.time + s.chain.unbondingTime)] } } := ⟨_, rfl⟩
         have H : s.handle (Msg.undelegate hubA v p) = .ok (s1, []) := by
           simp only [Sys.handle, bind, Except.bind, pure, Except.pure]
-          rw [if_neg (by simp), if_neg hp0, if_neg (by omega), hs1]
+          rw [if_neg (by simp), if_neg hp0, if_neg (by omega), if_neg (by rw [hnu v]; simp), hs1]
         obtain ⟨k, s', hk, sc, ht, hh, hb, hrun⟩ := ih ps s1 rest hnd'.2
           (fun y hy => by
             have hne : y.1 ≠ v := fun e => hnd'.1 (by
               have : y.1 ∈ vs.map (·.1) := List.mem_map.mpr ⟨y, hy, rfl⟩
               rw [e] at this; exact this)
             rw [hs1]; simp only [upd, hne, if_false]
-            exact hd y (List.mem_cons_of_mem _ hy)) hle'
+            exact hd y (List.mem_cons_of_mem _ hy)) hle' (by rw [hs1]; exact hnu)
         have sc1 : SameContracts s s1 := by rw [hs1]; exact ⟨rfl, rfl, rfl, rfl, rfl, rfl⟩
         refine ⟨k + 1, s', by simp; omega, sc1.trans sc, by rw [ht, hs1], by rw [hh, hs1], by rw [hb, hs1], fun n => ?_⟩
         simp only [zipMsgs, hp0, if_false, List.cons_append]
@@ -697,7 +697,8 @@ theorem delegationsOf_facts (s : Sys) :
     validator is asked for more than it holds — C12), the tokens are burned and the rates
     refreshed; the batch is written to the history and the next one opens. Premises on the state
     the slashing check produces (`st`): something is delegated, the books do not exceed the
-    delegations (what `C02_reachable` / the check itself establish) and neither pool is
+    delegations (what `C02_reachable` / the check itself establish), the staking module's limit
+    on unbonding entries is not reached (E2) and neither pool is
     zero-backed (D6 — with a zero-backed pool the statement is false, known finding). -/
 theorem C09_stsei_unbond_closing_batch_tx_succeeds (s : Sys) (u : Addr) (amt : Nat) (st : HubSt)
     (hp : s.hub.isPaused = false) (hbt : s.hub.bsei = some bseiA) (hst : s.hub.stsei = some stseiA)
@@ -706,6 +707,7 @@ theorem C09_stsei_unbond_closing_batch_tx_succeeds (s : Sys) (u : Addr) (amt : N
     (hgate : s.chain.time - s.hub.lastUnbondedTime > s.hub.epoch)
     (hact : s.hub.actualState s.hubEnv = .ok st)
     (hd : s.delegationsOf hubA ≠ []) (hr : ((s.delegationsOf hubA).map (·.2)).sum < U128)
+    (hnu : ∀ v, s.chain.noUndelegate v = false)
     (hsb : st.sBond ≠ 0) (hbb : st.bBond ≠ 0 ∨ st.reqB = 0)
     (hbooks : st.bBond + st.sBond ≤ ((s.delegationsOf hubA).map (·.2)).sum) :
     ∃ s', s.exec (.wasm u stseiA (.tok (.send hubA amt .unbond)) []) = (s', .ok ()) ∧
@@ -825,7 +827,7 @@ theorem C09_stsei_unbond_closing_batch_tx_succeeds (s : Sys) (u : Addr) (amt : N
     ([HubSt.tokMsg hubA stseiA (.burn amt)] ++ [])
     (nodup_sortDesc _ df.1)
     (fun x hx => by rw [ch2]; exact df.2 x ((mem_sortDesc x _).mp hx))
-    (fun j => (c12.2.2 j).1)
+    (fun j => (c12.2.2 j).1) (by rw [ch2]; exact hnu)
   have hklen : k ≤ 5 := by
     have h1 : (sortDesc s.hubEnv.delegations).length = s.hubEnv.delegations.length := by
       have : ∀ l : List (Addr × Nat), (sortDesc l).length = l.length := by
